@@ -385,6 +385,16 @@ def execute(plan, tape):
                     # the portfolio reported the failure: it stays usable for the next query
                     sat_mode = False
                     probe("continued_after_reported_failure")
+                    if tape.chance(1, 3, "ask.after.failure") and symbols:
+                        # a (mistaken) value request right after the failure: any exception is fine,
+                        # a call that never returns is not
+                        try:
+                            api("get_value", pf.get_value, mgr.get_symbol(sorted(symbols)[0]))
+                            probe("value_request_after_failed_solve_returned")
+                        except Violation as v_:
+                            if ":raised:" not in v_.sig:
+                                raise
+                            probe("value_request_after_failed_solve_raised")
                     continue
                 sat_mode = bool(r[1])
             elif k in ONESHOT:
@@ -464,6 +474,18 @@ def execute(plan, tape):
                         a[n] = v.constant_value()
                     else:
                         a[n] = bp.domain(syms[n])[0]
+                        if tape.chance(1, 3, "ask.unknown.symbol"):
+                            # a value request the member cannot serve (its solver was never told about
+                            # the symbol): it may raise - the member dies of it - but it must not block
+                            try:
+                                api("get_value", pf.get_value, mgr.get_symbol(n))
+                                probe("value_of_undeclared_symbol_returned")
+                            except Violation as v_:
+                                if ":raised:" not in v_.sig:
+                                    raise
+                                probe("value_of_undeclared_symbol_refused")
+                                died = True
+                                break
                 if died:
                     extra, sat_mode = [], False
                     continue
